@@ -277,12 +277,12 @@ PROPS = {
         "rules": [("EE", 3, None), ("IC", 5, has("repr::cnf::")), ("WP", 2, has("repr::cnf::")),
                   ("FS", 3, has("repr::cnf::", "assignment_weight")), ("CN", 2, None),
                   ("PR", 1, has("CnfHasher")), ("LT", 2, has("CnfHasher")),
-                  ("PM", 9, None), ("HS", 5, None), ("LC", 2, has("is_sat_partial", "Cnf::eval", "Cnf::condition")), ("LP", 6, None), ("WT", 1, has("from_litvec"))],
+                  ("PM", 9, None), ("HS", 5, None), ("LC", 2, has("is_sat_partial", "Cnf::eval", "Cnf::condition")), ("LP", 6, None), ("WT", 1, has("from_litvec")), ("DP", 1, has("from_string:sign"))],
         "explanation": "Brute-force counting leaves its enumeration loop only when the assignment iterator is exhausted (EE); "
                        "Cnf's variable count is max label + 1 (IC); the residual hasher's pos/neg tables are selected and "
                        "indexed by the same literal (WP); counting accumulators are seeded with zero/one (FS). Not decided: "
                        "agreement of eval / condition / is_sat_partial / the hasher's 'only then' direction with their "
-                       "definitions. Added: PartialModel set/unset/get/is_set/lit_implied/lit_neg_implied and its constructors/iterators follow the two-set definition (PM, abstract interpretation over membership pairs); CnfHasher::hash skips a satisfied clause entirely, skips a falsified literal, multiplies an unassigned literal's prime and accumulates every clause product (HS); pos_lits/neg_lits keep their label indexing (LT). Added: Cnf::eval and is_sat_partial mark a clause satisfied exactly for a true literal, Cnf::condition drops the clause for the conditioning literal, drops the literal for its complement and keeps every other literal - each interpreted over all (relation, polarity) cases (LC). Added: LP — the bit-field packing of Literal (known-bits/provenance analysis of the generated accessors): the label and polarity fields do not overlap, each setter writes exactly what its getter reads, label(new(l,p)) = l and polarity(new(l,p)) = p, and negated/implies_true/implies_false equal their definitions by truth table. Added: WT — PartialModel::from_litvec assigns every listed literal's variable that literal's own polarity.",
+                       "definitions. Added: PartialModel set/unset/get/is_set/lit_implied/lit_neg_implied and its constructors/iterators follow the two-set definition (PM, abstract interpretation over membership pairs); CnfHasher::hash skips a satisfied clause entirely, skips a falsified literal, multiplies an unassigned literal's prime and accumulates every clause product (HS); pos_lits/neg_lits keep their label indexing (LT). Added: Cnf::eval and is_sat_partial mark a clause satisfied exactly for a true literal, Cnf::condition drops the clause for the conditioning literal, drops the literal for its complement and keeps every other literal - each interpreted over all (relation, polarity) cases (LC). Added: LP — the bit-field packing of Literal (known-bits/provenance analysis of the generated accessors): the label and polarity fields do not overlap, each setter writes exactly what its getter reads, label(new(l,p)) = l and polarity(new(l,p)) = p, and negated/implies_true/implies_false equal their definitions by truth table. Added: WT — PartialModel::from_litvec assigns every listed literal's variable that literal's own polarity. Added: DP from_string — the string format writes a literal as a signed label without offset, so it is negative exactly for negative numbers (`0` is the positive literal of variable 0; defect D11, repaired).",
     },
     "C16": {
         "level": "proof",
@@ -297,11 +297,11 @@ PROPS = {
         "level": "other",
         "rules": [("DP", 12, has("from_sexpr", "VTreeSerializer", "from_dimacs", "to_dimacs")), ("IC", 1, has("from_dimacs")),
                   ("CP", 6, has("serialize::")), ("CN", 1, has("repr::cnf::")), ("SR", 3, None), ("LE", 7, None),
-                  ("NC", 5, has("from_dimacs", "to_dimacs")), ("SP", 0, has("SP1:serialize", "SP1:ffi::bdd::bdd_to_json")), ("LP", 6, None)],
+                  ("NC", 5, has("from_dimacs", "to_dimacs")), ("SP", 0, has("SP1:serialize", "SP1:ffi::bdd::bdd_to_json")), ("LP", 6, None), ("DP", 1, has("from_string:sign"))],
         "explanation": "The s-expression translation and the vtree mirror map each variant to its namesake with children in "
                        "order (DP); DIMACS signs map Neg to false and Pos to true in both parsers (DP); the CNF parser "
                        "subtracts one from the 1-based DIMACS variable (IC OneBased -> Index). Not decided: model-level "
-                       "equality of parsed formulas; JSON well-formedness (serde). Added: in the s-expression parser every special case of a negated operand still denotes the negation (Not(Not e) may only shortcut to e). Added after the fourth seeding round: the DIMACS readers keep every clause and every literal of the text (NC: every iteration of a loop over the items pushes onto its accumulator; an iterator chain from the items to collect() has no filter/skip/take/dedup) - a dropped clause gives the result extra models while everything downstream stays consistent. The serialisers keep their node-to-row table in a per-call map; should one of them start to use the per-node scratch slot instead, it falls under the leak rule of C10 (SP1: every externally reachable function that sets scratch clears it on every path to return) - row indices that survive a call refer to the previous call's table (floor 0: no such instance today). Added: LP — the bit-field packing of Literal (known-bits/provenance analysis of the generated accessors): the label and polarity fields do not overlap, each setter writes exactly what its getter reads, label(new(l,p)) = l and polarity(new(l,p)) = p, and negated/implies_true/implies_false equal their definitions by truth table.",
+                       "equality of parsed formulas; JSON well-formedness (serde). Added: in the s-expression parser every special case of a negated operand still denotes the negation (Not(Not e) may only shortcut to e). Added after the fourth seeding round: the DIMACS readers keep every clause and every literal of the text (NC: every iteration of a loop over the items pushes onto its accumulator; an iterator chain from the items to collect() has no filter/skip/take/dedup) - a dropped clause gives the result extra models while everything downstream stays consistent. The serialisers keep their node-to-row table in a per-call map; should one of them start to use the per-node scratch slot instead, it falls under the leak rule of C10 (SP1: every externally reachable function that sets scratch clears it on every path to return) - row indices that survive a call refer to the previous call's table (floor 0: no such instance today). Added: LP — the bit-field packing of Literal (known-bits/provenance analysis of the generated accessors): the label and polarity fields do not overlap, each setter writes exactly what its getter reads, label(new(l,p)) = l and polarity(new(l,p)) = p, and negated/implies_true/implies_false equal their definitions by truth table. Added: DP from_string — the string format writes a literal as a signed label without offset, so it is negative exactly for negative numbers (`0` is the positive literal of variable 0; defect D11, repaired).",
     },
     "C18": {
         "level": "proof",
